@@ -719,6 +719,11 @@ def load_corpus():
 def main():
     chk = Check("C01", groups=["vecenv", "seed"])
     chk.build_props()
+    from harness.c01_branchcov import BranchCov, summarize
+
+    cov = BranchCov(['stable_baselines3/common/vec_env/dummy_vec_env.py', 'stable_baselines3/common/vec_env/subproc_vec_env.py', 'stable_baselines3/common/vec_env/base_vec_env.py', 'stable_baselines3/common/vec_env/util.py', 'stable_baselines3/common/env_util.py', 'stable_baselines3/common/vec_env/__init__.py']) if BranchCov.enabled() else None
+    if cov:
+        cov.start()
     quick = chk.tier == "quick"
     cases = load_corpus()
     n_corpus = len(cases)
@@ -791,6 +796,9 @@ def main():
         "per-kind observation plumbing (_save_obs, _obs_from_buf, _stack_obs, dict_to_obs), loops over sub-environments and seed()/set_options() are tied to the model by correspondence only",
         "rewards are multiples of 1/4 (exact in float32 and float64); reward dtype is not compared (see C02 finding reward-dtype-float32-vs-float64)",
     ]
+    if cov:
+        cov.stop()
+        chk.notes["branch_coverage_unexecuted"] = summarize(cov.report(), common.REPO)
     return chk.finish()
 
 
